@@ -53,6 +53,9 @@ func (s *VerifSnap) locate(k []byte) (int, bool) {
 	return len(s.Keys), false
 }
 
+// WithKV returns the store with k set to v.
+func (s *VerifSnap) WithKV(k, v []byte) *VerifSnap { return s.with(k, v) }
+
 func (s *VerifSnap) with(k, v []byte) *VerifSnap {
 	i, found := s.locate(k)
 	n := &VerifSnap{}
